@@ -5,7 +5,8 @@
 Require Import Cherab.Common.Qx.
 Require Import Cherab.Model.C03_Passive Cherab.Model.C03_Brems Cherab.Model.C03_Quadrature Cherab.Model.C03_Gaunt Cherab.Model.C03_Check.
 Require Import Cherab.Proofs.C03_Lines Cherab.Proofs.C03_Total Cherab.Proofs.C03_Brems.
-Require Import Cherab.Model.C03_Cache.
+Require Import Cherab.Model.C03_Cache Cherab.Model.C03_Guards.
+Require Import Cherab.Proofs.C03_Guards.
 Require Import Cherab.Proofs.C03_Quadrature Cherab.Proofs.C03_BremsGQ Cherab.Proofs.C03_Gaunt Cherab.Proofs.C03_Cache.
 Open Scope Q_scope.
 
@@ -341,6 +342,93 @@ Theorem C03_brems_gaunt_cache :
   (op = 3%Z -> fst (brems_cache_step st op) = true).
 Proof. exact brems_cache_step_spec. Qed.
 Print Assumptions C03_brems_gaunt_cache.
+
+(* the early exits of the executable models are those of the guard table re-read from the sources (Gen lemma guards_ok):
+   one separate "<= 0" test per quantity, never a product.  In particular an emission is skipped as soon as ONE of
+   electron density, electron temperature, target / receiver density is non-positive, whatever the signs of the others *)
+Theorem C03_guards_separate :
+  (forall rate ne te s,
+     line_radiance rate ne te s =
+     if skip_by line_guards (env3 ne te (s_dens s)) then Skip else Emit (k4pi * rate ne te * ne * s_dens s)) /\
+  (forall P l ne te comp rcv, comp_get comp (l_elem l) (l_charge l + 1) = Some rcv ->
+     thermalcx_radiance P l ne te comp =
+     if skip_by thermalcx_guards (env3 ne te (s_dens rcv)) then Skip
+     else Emit (k4pi * tcx_weighted P l ne te (donors rcv comp) * s_dens rcv)) /\
+  (forall P l ne te d, tcx_term P l ne te d = if Qle_bool (s_dens d) 0 then 0 else tcx_raw_term P l ne te d) /\
+  (forall P hyd e c znum ne te comp minw maxw sp up,
+     (0 <= c < znum)%Z -> comp_get comp e c = Some sp -> comp_get comp e (c + 1) = Some up ->
+     total_power_radiance P hyd e c znum ne te comp minw maxw =
+     if skip_by total_guards (env3 ne te 1) then Skip
+     else Emit (k4pi * total_power_density P e c ne te (s_dens sp) (s_dens up) (hyd_density hyd comp) / (maxw - minw))) /\
+  (forall C sqrtf expf gaunt integ ne te comp minw delta nbins,
+     brems_emission C sqrtf expf gaunt integ ne te comp minw delta nbins =
+     if skip_by brems_guards (env3 ne te 1) then None
+     else Some (brems_bins_from integ (brems_function C sqrtf expf gaunt ne te (charged_pairs comp)) minw delta minw 0 nbins)).
+Proof.
+  split; [exact line_radiance_guards|]. split; [exact thermalcx_radiance_guards|]. split; [exact tcx_term_guard|].
+  split; [exact total_power_guards|exact brems_emission_guards].
+Qed.
+Print Assumptions C03_guards_separate.
+
+(* ---- second deepening round ------------------------------------------------------------------------------------- *)
+(* Gauss-Legendre exactness beyond constants, for the model's rule: the 2-point rule (nodes -s, s, weights 1, 1) applied to
+   a cubic differs from the exact integral by an explicit multiple of (s^2 - 1/3) for ANY s (so for the double nodes of the
+   code the defect is of relative order 2^-53), and is exact when s^2 = 1/3; the 3-point rule (nodes -s, 0, s with
+   s^2 = 3/5, weights 5/9, 8/9, 5/9) is exact on every polynomial of degree <= 5 *)
+Theorem C03_gq_low_order_exact :
+  (forall roots weights ib s a0 a1 a2 a3 a b,
+     slice roots ib 2 = [- s; s] -> slice weights ib 2 = [1; 1] ->
+     rule roots weights ib 2 (poly3 a0 a1 a2 a3) ((1 # 2) * (a + b)) ((1 # 2) * (b - a)) ==
+     prim3 a0 a1 a2 a3 b - prim3 a0 a1 a2 a3 a
+     + (b - a) * ((1 # 2) * (b - a)) ^ 2 * (a2 + 3 * a3 * ((1 # 2) * (a + b))) * (s * s - (1 # 3))) /\
+  (forall roots weights ib s a0 a1 a2 a3 a b,
+     slice roots ib 2 = [- s; s] -> slice weights ib 2 = [1; 1] -> s * s == 1 # 3 ->
+     rule roots weights ib 2 (poly3 a0 a1 a2 a3) ((1 # 2) * (a + b)) ((1 # 2) * (b - a)) ==
+     prim3 a0 a1 a2 a3 b - prim3 a0 a1 a2 a3 a) /\
+  (forall roots weights ib s a0 a1 a2 a3 a4 a5 a b,
+     slice roots ib 3 = [- s; 0; s] -> slice weights ib 3 = [5 # 9; 8 # 9; 5 # 9] -> s * s == 3 # 5 ->
+     rule roots weights ib 3 (poly5 a0 a1 a2 a3 a4 a5) ((1 # 2) * (a + b)) ((1 # 2) * (b - a)) ==
+     prim5 a0 a1 a2 a3 a4 a5 b - prim5 a0 a1 a2 a3 a4 a5 a).
+Proof. split; [exact rule2_defect|]. split; [exact rule2_exact|exact rule3_exact]. Qed.
+Print Assumptions C03_gq_low_order_exact.
+
+(* the adaptive loop itself (orders 2..3, any tolerance) integrates every cubic exactly *)
+Theorem C03_gq23_exact_on_cubics :
+  forall s2 s3 rtol a0 a1 a2 a3 a b, s2 * s2 == 1 # 3 -> s3 * s3 == 3 # 5 ->
+  gq_evaluate [- s2; s2; - s3; 0; s3] [1; 1; 5 # 9; 8 # 9; 5 # 9] 2 3 rtol (poly3 a0 a1 a2 a3) a b ==
+  prim3 a0 a1 a2 a3 b - prim3 a0 a1 a2 a3 a.
+Proof. exact gq23_exact_cubic. Qed.
+Print Assumptions C03_gq23_exact_on_cubics.
+
+(* enclosure: an integrand lying between two cubics is integrated by the 2-point rule to a value between their exact
+   integrals; the quadrature error of a bin is thus at most the integral of the width of any cubic envelope.
+   This narrows C03_brems_bin_average_partial: what is still not proved is the existence of a tight envelope for the
+   Hutchinson integrand (a Taylor / Peano-kernel argument over R for functions with bounded 2n-th derivative, for every
+   order the adaptive loop may stop at), not any property of the code. *)
+Theorem C03_gq2_envelope_partial :
+  forall roots weights ib s f l0 l1 l2 l3 h0 h1 h2 h3 a b,
+  slice roots ib 2 = [- s; s] -> slice weights ib 2 = [1; 1] -> s * s == 1 # 3 ->
+  (forall w, In w weights -> 0 <= w) -> a <= b ->
+  (forall x, poly3 l0 l1 l2 l3 x <= f x) -> (forall x, f x <= poly3 h0 h1 h2 h3 x) ->
+  prim3 l0 l1 l2 l3 b - prim3 l0 l1 l2 l3 a <= rule roots weights ib 2 f ((1 # 2) * (a + b)) ((1 # 2) * (b - a)) /\
+  rule roots weights ib 2 f ((1 # 2) * (a + b)) ((1 # 2) * (b - a)) <= prim3 h0 h1 h2 h3 b - prim3 h0 h1 h2 h3 a.
+Proof. exact rule2_envelope. Qed.
+Print Assumptions C03_gq2_envelope_partial.
+
+(* total radiated power, linearity on the level of the composition: n_hyd is linear in the density n of each neutral hydrogen
+   isotope that is in the composition, and the power density is affine in it as long as the summed hydrogen density stays on
+   the positive side of its guard (closes the gap left in C03_linear_in_density, which was stated on the scalar n_hyd) *)
+Theorem C03_total_power_linear_isotope :
+  (forall hyd comp h s n, comp_get comp h 0 = Some s -> NoDup hyd -> In h hyd ->
+     hyd_density hyd (upd_dens h 0 n comp) == hyd_density hyd (upd_dens h 0 0 comp) + n) /\
+  (forall P hyd e c ne te ni nup comp h s n,
+     comp_get comp h 0 = Some s -> NoDup hyd -> In h hyd ->
+     0 <= hyd_density hyd (upd_dens h 0 0 comp) -> 0 < hyd_density hyd (upd_dens h 0 0 comp) + n ->
+     total_power_density P e c ne te ni nup (hyd_density hyd (upd_dens h 0 n comp)) ==
+     total_power_density P e c ne te ni nup (hyd_density hyd (upd_dens h 0 0 comp))
+     + n * (if pos nup then nup * coef (prc_rate P e (c + 1)) ne te else 0)).
+Proof. split; [exact hyd_density_linear | exact total_power_linear_isotope]. Qed.
+Print Assumptions C03_total_power_linear_isotope.
 
 (* the constant: 1/(4 pi) to double precision, and the bremsstrahlung constant for the CODATA values
    (square roots bracketed by rationals) is 1.5151e-36, i.e. 4 pi K / (hc/e) = 1.536e-38 W m^3 eV^-1/2, the
